@@ -159,9 +159,10 @@ def kdtree(seqs: OneOf(Seq(Str, "list"), Seq(Str, "ndarray"), SeriesT(Str, "int"
     ensures(forall(TInt, TInt, lambda q, r: implies(
         0 <= q and q < len(seqs) and 0 <= r and r < len(seqs) and q != r
         and is_neighbor(seqs[q], seqs[r], custom_distance, max_edits, max_custom_distance),
-        member(triplets_of(result), (q, r, neighbor_value(seqs[q], seqs[r], custom_distance)), q, r)
-        or member(triplets_of(result), (q, r, neighbor_value(seqs[q], seqs[r], custom_distance)),
-                  len(seqs[q]), bucket_pos(local("buckets"), q), bucket_pos(local("buckets"), r)))),
+        (member(triplets_of(result), (q, r, neighbor_value(seqs[q], seqs[r], custom_distance)),
+                len(seqs[q]), bucket_pos(local("buckets"), q), bucket_pos(local("buckets"), r))
+         if custom_distance == "hamming" else
+         member(triplets_of(result), (q, r, neighbor_value(seqs[q], seqs[r], custom_distance)), q, r)))),
             name="post[complete]")
     ensures(no_duplicates(triplets_of(result), lambda t: (t[0], t[1])), name="post[each pair once]")
     ensures(output_kind(result) == output_type and (output_type == "triplets" or output_shape(result) == (len(seqs), len(seqs))),
